@@ -549,6 +549,27 @@ func (r *poolRun) opIncreaseFee(cn string) {
 		who = r.user()
 	}
 	before := r.snapshot()
+	if r.rng.IntN(6) == 0 {
+		// the added fee offered in another token of the same chain: refused, nothing changes
+		for _, o := range r.tokensOn(cn) {
+			if o.Base == t.Base || o.Kind == fix.KindFX || o.Denom[cn] == "" {
+				continue
+			}
+			if cv := r.c.Msg(&erc20types.MsgConvertDenom{Sender: who.Bech32(), Receiver: who.Bech32(), Coin: sdk.NewCoin(o.Base, add), Target: cn}); !cv.OK() {
+				break
+			}
+			res := b.IncreaseFee(who, id, sdk.NewCoin(o.Denom[cn], add))
+			op := fmt.Sprintf("increase-fee %s id=%d (%s) +%s of another token (%s) by %s -> %s", cn, id, t.Symbol, add, o.Symbol, who.Label, short(res.ErrString()))
+			r.logf(op)
+			r.res.Count("fee_increases_in_another_token", 1)
+			if res.OK() {
+				r.v05("C05/fee-in-another-token-accepted", "%s", op)
+			}
+			r.expectDeltas(op, before, nil)
+			r.sync(cn, op)
+			return
+		}
+	}
 	// the message takes the fee in the bridge denomination; a holder converts base -> bridge denom first
 	feeDenom := t.Denom[cn]
 	if t.Kind == fix.KindFX {
@@ -673,10 +694,17 @@ func (r *poolRun) opBatchExternal(cn string) {
 		sum = sum.Add(tx.Token.Amount).Add(tx.Fee.Amount)
 	}
 	op := fmt.Sprintf("batch-executed %s nonce=%d at ext height %d (timeout %d)", cn, bt.BatchNonce, h, bt.BatchTimeout)
-	if !r.quorum(cn, b.SendToExternalClaim(n, h, bt.BatchNonce, tok.Ext[cn]), op) {
+	finish := func() {}
+	if r.rng.IntN(4) == 0 {
+		var ok bool
+		if ok, finish = r.splitObservation(cn, n, bt.BatchTimeout, func(height uint64) fix.ClaimFn { return b.SendToExternalClaim(n, height, bt.BatchNonce, tok.Ext[cn]) }, h, op); !ok {
+			return
+		}
+	} else if !r.quorum(cn, b.SendToExternalClaim(n, h, bt.BatchNonce, tok.Ext[cn]), op) {
 		r.sync(cn, "batch-executed-blocked", observeAllow...)
 		return
 	}
+	defer finish()
 	r.logf(op)
 	r.nontrivial["batch-executed"] = true
 	r.withdrawn[tok.Base] = r.withdrawn[tok.Base].Add(sum)
@@ -697,6 +725,102 @@ func (r *poolRun) opBatchExternal(cn string) {
 				r.res.Violate("C05/executed-batch-still-stored", "%s: transfer %d is still in the executed batch", op, x.ID)
 			}
 		}
+	}
+}
+
+// splitObservation delivers the event (nonce n, true external height h) the way a disagreeing oracle set does:
+// most of a quorum-sized group reports it as it happened, one member of the group reports it one block later (a
+// different claim), and before the stragglers settle it the same group already reports the NEXT event, which
+// happened at or past the given timeout. Events are observed in nonce order, so that later event has to wait
+// although it has the votes; only then do the stragglers vote. finish (to be called when the caller has done
+// its own accounting for event n) lets the stragglers vote the later event too and executes it.
+func (r *poolRun) splitObservation(cn string, n, timeout uint64, mk func(height uint64) fix.ClaimFn, h uint64, op string) (bool, func()) {
+	b := r.bridge(cn)
+	nop := func() {}
+	var online []*fix.Oracle
+	total := sdkmath.ZeroInt()
+	power := map[*fix.Oracle]sdkmath.Int{}
+	for _, o := range b.Oracles {
+		if rec, ok := b.K.GetOracle(r.c.Ctx, o.Oracle.Acc()); ok && rec.Online {
+			online = append(online, o)
+			power[o] = rec.GetPower()
+			total = total.Add(rec.GetPower())
+		}
+	}
+	enough := func(p sdkmath.Int) bool { return p.MulRaw(100).GTE(total.MulRaw(66)) }
+	var group []*fix.Oracle
+	gp := sdkmath.ZeroInt()
+	for _, o := range online {
+		if enough(gp) {
+			break
+		}
+		group = append(group, o)
+		gp = gp.Add(power[o])
+	}
+	rest := online[len(group):]
+	if len(group) < 2 || len(rest) == 0 || enough(gp.Sub(power[group[len(group)-1]])) || !enough(total.Sub(power[group[len(group)-1]])) {
+		return r.quorum(cn, mk(h), op), nop // the stakes do not allow the split: ordinary delivery
+	}
+	vote := func(o *fix.Oracle, fn fix.ClaimFn, what string) bool {
+		if res := b.Vote(o, fn); !res.OK() {
+			r.logf("%s: %s", what, short(res.ErrString()))
+			return false
+		}
+		return true
+	}
+	late := group[len(group)-1]
+	for _, o := range group[:len(group)-1] {
+		if !vote(o, mk(h), "split vote") {
+			return false, nop
+		}
+	}
+	if !vote(late, mk(h+1), "split vote (one block later)") {
+		return false, nop
+	}
+	r.res.Count("split_observations", 1)
+	// the next event, at or past the timeout, reported by the whole group
+	if b.ExtHeight < timeout+1 {
+		b.ExtHeight = timeout + 1
+	}
+	n2, h2 := b.NextEvent()
+	t := r.pickToken(cn)
+	u := r.user()
+	amt := sdkmath.NewInt(int64(100 + r.rng.IntN(900)))
+	dep := b.SendToFxClaim(n2, h2, t.Ext[cn], amt, u.Hex(), u.Acc(), "")
+	before := r.snapshot()
+	for _, o := range group {
+		if !vote(o, dep, "later event") {
+			return false, nop
+		}
+	}
+	if got := b.K.GetLastObservedEventNonce(r.c.Ctx); got >= n {
+		r.v06("C06/event-observed-out-of-order", "%s: event %d (external height %d) was observed while event %d is still disputed; last observed nonce is now %d", op, n2, h2, n, got)
+	}
+	r.afterObservation(cn, fmt.Sprintf("%s: later event %d at ext height %d has the votes and waits", op, n2, h2), before)
+	// the stragglers settle the disputed event
+	for _, o := range rest {
+		if !vote(o, mk(h), "straggler") {
+			return false, nop
+		}
+	}
+	return true, func() {
+		before := r.snapshot()
+		for _, o := range rest {
+			vote(o, dep, "straggler, later event")
+		}
+		r.afterObservation(cn, fmt.Sprintf("deposit-observed %s n=%d (after the split vote)", t.Symbol, n2), before)
+		before = r.snapshot()
+		er := b.ExecuteClaim(r.c.Users[3], n2)
+		op2 := fmt.Sprintf("deposit-execute %s %s to %s (after the split vote) -> %s", cn, amt, u.Label, short(er.VmError()))
+		if er.Failed() {
+			r.expectDeltas(op2, before, nil)
+		} else {
+			r.res.Count("deposits_executed", 1)
+			r.deposited[t.Base] = r.deposited[t.Base].Add(amt)
+			r.liq(cn, t.Base, amt)
+			r.expectDeltas(op2, before, []delta{{t.Base, u.Label, amt}})
+		}
+		r.sync(cn, op2)
 	}
 }
 
